@@ -94,6 +94,7 @@ type FnExec struct {
 	mode     string // "full" or "safety"
 	mutSlices map[ssa.Value]Val
 	waived      []string
+	notes       []string // modelling notes reported with the function (not abstractions)
 	bufs        map[ssa.Value]*bufRef // local byte buffers (make([]byte, n)) and slices of them
 	mslices     map[ssa.Value]*mslice // local element-wise mutated slices (make([]T, n) filled by index)
 	ins         map[string]string // in(param): content of the buffer region before the call
